@@ -337,6 +337,9 @@ class err_handler(object):
         self._add_cur_ele()
         self.cur_ele_node.add_error(
             err_cde, err_str, bad_value)  # , pos, data_ele)
+        if self.cur_seg_node is not None and self.cur_seg_node.id in ('ST', 'GS') and self.cur_seg_node.is_closed():
+            # SE / GE element errors arrive after close() fixed the acknowledgement code
+            self.cur_seg_node.ack_code = 'R'
         self._touch(self.cur_seg_node)
         sout = ''
         sout += 'Line:%i ' % (self.cur_seg_node.get_cur_line())
@@ -705,6 +708,9 @@ class err_gs(err_node):
         #elif '6' in err_codes: return 'E'
         if len(self.errors) > 0:
             return 'R'
+        for ele in self.elements:
+            if ele.err_count() > 0:
+                return 'R'
         return 'A'
 
     def count_failed_st(self):
@@ -842,7 +848,8 @@ class err_st(err_node):
         seg_err_ct = 0
         if self.child_err_count() > 0:
             seg_err_ct = 1
-        return len(self.errors) + seg_err_ct
+        ele_err_ct = sum(ele.err_count() for ele in self.elements)
+        return len(self.errors) + seg_err_ct + ele_err_ct
 
     def get_error_count(self):
         return self.err_count()
